@@ -1736,6 +1736,9 @@ def GET_EYE(
         # amplitudes are normalized to the distance between levels, so that the clustering
         # of the (t, y) points does not depend on the unit/scale of the signal
         ty = np.vstack([t[cond], (input[cond] - state_0) / d01]).T
+        # every crossing repeats one slot later: its image, wrapped into the two-slot trace, is clustered with it, so that both
+        # crossings of the trace are populated whatever the parity of the slots the transitions fall on
+        ty = np.concatenate([ty, np.vstack([(t[cond] + 2) % 2 - 1, ty[:,1]]).T])
 
         # We get centroids of 2 clusters for t,y
         kmeans.fit(ty)
